@@ -1258,8 +1258,16 @@ def ob_measure_complete_family(d, su):
             v = density_verdict(i["rho"])
             return ~v if isinstance(v, SymBool) else (not v)
         return False
+    def witness():
+        # c = 3/5, s = 4/5 (exact), a full-rank density matrix so that every outcome has positive probability
+        rho = np.diag(np.arange(1, d + 1, dtype=float))
+        rho = rho / np.trace(rho)
+        rho = rho.astype(complex)
+        rho[0, d - 1] += 0.05j
+        rho[d - 1, 0] -= 0.05j
+        return [{"rho": rho, "c": 0.6, "s": 0.8}, {"rho": rho, "c": 0.8, "s": -0.6}]
     return Obligation("measure.complete_family_accepted_probabilities_sum_to_trace", cfg, build, call, oracle, assume=assume,
-                      valid=valid, exc_post=exc_post, tv=False, neg_control=True, max_paths=600)
+                      valid=valid, exc_post=exc_post, tv=False, neg_control=True, max_paths=600, witness=witness)
 
 
 def ob_measure_incomplete_rejected(d, r):
@@ -1534,6 +1542,10 @@ def obligations(tier):
         for is_real in (False, True):
             for k in range(0, min(d0, d1) + 1):
                 obs.append(ob_state_vector([d0, d1], is_real, k))
+    if not T:
+        # unequal local dimensions with a Schmidt-rank bound >= 2 (the smallest case where the two dims can be confused)
+        obs.append(ob_state_vector([3, 4], True, 2))
+        obs.append(ob_state_vector([4, 3], True, 2))
     # ---- random_povm --------------------------------------------------------------------------------------------------------------
     shapes = [(1, 1, 1), (1, 1, 2), (1, 2, 2), (1, 1, 3), (2, 1, 1), (2, 1, 2), (2, 2, 2), (2, 1, 3), (3, 1, 2)]
     if T:
